@@ -272,6 +272,7 @@ package s2
 // order of an ordinary loop, and hands the loop to a reset index again (one shape, to be rebuilt on next use).
 //@ func (l *Loop) Invert()
 //@   requires vcLoopIndexed(l) && vcRectConsts()
+//@   modifies l.vertices[*], l.originInside, l.bound, l.subregionBound, *l.index
 //@   noframe
 //@   ensures [indexed] vcLoopIndexed(l)
 //@   ensures [pending] l.index.pendingAdditionsPos == 0 && l.index.status == stale
